@@ -2,6 +2,7 @@ package checks
 
 import (
 	"fmt"
+	"os"
 	"strings"
 	"testing"
 
@@ -70,6 +71,10 @@ func genC11(t *rapid.T) *C11Case {
 		c.Vars = append(c.Vars, [2]string{"usage-hint-always", "on"})
 	}
 
+	if rapid.IntRange(0, 3).Draw(t, "autosuggest") == 0 {
+		c.Vars = append(c.Vars, [2]string{"history-autosuggest", "on"})
+	}
+
 	if rapid.IntRange(0, 5).Draw(t, "transient") == 0 {
 		c.Vars = append(c.Vars, [2]string{"prompt-transient", "on"})
 	}
@@ -127,9 +132,10 @@ func runC11(h *Harness, child *rig.Child, c *C11Case) (*Failure, bool) {
 	comp := &proto.CompSpec{Cands: []proto.Cand{{Value: "foo"}, {Value: "foobar"}, {Value: "food", Desc: "eat"}, {Value: "bar"}}, Mode: "word"}
 	spec := &proto.Spec{Calls: 1, Inputrc: renderVars(mode, vars), Multiline: "backslash", Prompt: &proto.PromptSpec{Primary: c.Prompt, Transient: "T> "}, Completer: comp,
 		Probes: []proto.ProbeSpec{{Name: "verif-panic", Kind: "panic"}},
-		Binds: append(e.bindNames([]string{"accept-line", "accept-and-hold", "operate-and-get-next", "insert-comment", "edit-command-line", "end-of-file", "beginning-of-line", "backward-char", "complete", "reverse-search-history", "abort"}, mainKeymaps...),
+		Binds: append(e.bindNames([]string{"accept-line", "accept-and-hold", "operate-and-get-next", "insert-comment", "edit-command-line", "end-of-file", "beginning-of-line", "backward-char", "complete", "menu-complete", "reverse-search-history", "abort"}, mainKeymaps...),
+			proto.BindSpec{Keymap: "emacs", Seq: "\x0f", Action: "verif-panic"}, proto.BindSpec{Keymap: "vi-insert", Seq: "\x0f", Action: "verif-panic"}, proto.BindSpec{Keymap: "vi-command", Seq: "\x0f", Action: "verif-panic"},
 			proto.BindSpec{Keymap: "emacs", Seq: "\x1b[9999~", Action: "verif-panic"}, proto.BindSpec{Keymap: "vi-insert", Seq: "\x1b[9999~", Action: "verif-panic"}, proto.BindSpec{Keymap: "vi-command", Seq: "\x1b[9999~", Action: "verif-panic"}),
-		Hist: []proto.HistSpec{{Kind: "mem", Name: "h", Entries: []string{"echo one", "foo two"}}}}
+		Hist: []proto.HistSpec{{Kind: "mem", Name: "h", Entries: []string{"echo one", "foo two", "hello\nsecond line of the entry", "echo hello, this is a long history line that wraps on the narrow terminals"}}}}
 
 	if c.Exit == "accept-and-hold" {
 		spec.Calls = 2
@@ -181,7 +187,8 @@ func runC11(h *Harness, child *rig.Child, c *C11Case) (*Failure, bool) {
 
 	switch c.Open {
 	case "menu":
-		d.send([]byte(e.key("complete")))
+		// menu-complete paints the candidates below the line (complete-word does not)
+		d.send([]byte(e.key("menu-complete")))
 	case "isearch":
 		d.send([]byte(e.key("reverse-search-history")))
 		d.send([]byte("o"))
@@ -196,6 +203,10 @@ func runC11(h *Harness, child *rig.Child, c *C11Case) (*Failure, bool) {
 	}
 
 	atExit := d.parks[len(d.parks)-1]
+
+	if os.Getenv("VERIF_TRACE") != "" && d.st.X != nil {
+		fmt.Printf("TRACE before the exit key: %s cursor=(%d,%d)\n%s\n", d.st, d.st.X.Row, d.st.X.Col, strings.Join(d.st.X.Dump(), "\n"))
+	}
 	buffer := atExit.Line
 
 	if atExit.Local == "isearch" {
@@ -217,7 +228,7 @@ func runC11(h *Harness, child *rig.Child, c *C11Case) (*Failure, bool) {
 			}
 		}
 	case "interrupt-menu":
-		d.send([]byte(e.key("complete")))
+		d.send([]byte(e.key("menu-complete")))
 		d.send([]byte("\x03"))
 
 		if d.fail == nil && d.st.Kind == "park" {
@@ -236,7 +247,8 @@ func runC11(h *Harness, child *rig.Child, c *C11Case) (*Failure, bool) {
 			d.send([]byte(e.key("accept-line")))
 		}
 	case "panic":
-		d.st = d.s.Send([]byte("\x1b[9999~"))
+		// a one-byte key: an ESC-prefixed one first closes an open menu
+		d.st = d.s.Send([]byte("\x0f"))
 	case "read-error":
 		d.st = d.s.Fault("ioerr")
 	}
@@ -269,6 +281,10 @@ func runC11(h *Harness, child *rig.Child, c *C11Case) (*Failure, bool) {
 		}
 
 		return &Failure{Clause: "infra", Msg: "unexpected stop " + st.String(), Infra: true}, true
+	}
+
+	if os.Getenv("VERIF_TRACE") != "" && st.X != nil {
+		fmt.Printf("TRACE final stop %s cursor=(%d,%d) style=%q\n%s\n", st, st.X.Row, st.X.Col, st.X.LastStyle, strings.Join(st.X.Dump(), "\n"))
 	}
 
 	ctx := fmt.Sprintf("exit %s in %s with buffer %q (cursor %d, helper %q) on a %dx%d terminal, prompt %q", c.Exit, c.Mode, buffer, atExit.Pos, atExit.Local, c.Cols, c.Rows, c.Prompt)
@@ -320,6 +336,31 @@ func runC11(h *Harness, child *rig.Child, c *C11Case) (*Failure, bool) {
 
 		if !rowBlank(scr, scr.Row) {
 			return fmt.Sprintf("the cursor row %d is not blank: %q", scr.Row, scr.RowText(scr.Row))
+		}
+
+		// and nothing the call displayed below the input (menu, hint, suggestion) is
+		// left between the input and the cursor
+		// (only when the row the model says the input ends on really shows the
+		// end of the input: scrolling with an empty prompt makes the anchor drift;
+		// the ^C echoed on an interrupt may have a row of its own)
+		anchored := lastText >= 0 && lastText < scr.H
+		if anchored && lay.EndRow >= 0 && len([]rune(final)) > 0 {
+			tail := []rune(final)
+			if len(tail) > 3 {
+				tail = tail[len(tail)-3:]
+			}
+
+			anchored = strings.Contains(scr.RowText(lastText), string(tail)) || lay.Filled
+		}
+
+		for r := lastText + 1; anchored && r < scr.Row; r++ {
+			if txt := strings.TrimSpace(scr.RowText(r)); txt == "^C" || txt == "C" {
+				continue
+			}
+
+			if !rowBlank(scr, r) {
+				return fmt.Sprintf("row %d, between the input (ends on row %d) and the cursor (row %d), still shows %q", r, lastText, scr.Row, scr.RowText(r))
+			}
 		}
 
 		return ""
